@@ -203,3 +203,19 @@ fn c19_powf_unit_interval() {
     assert!(r >= 0.0 && r <= 1.0);
     reach!();
 }
+
+//@ob prop=C19,C14,C11 fn="State::get_value / get_position / get_velocity / get_acceleration" at=src/state.rs:112 clause="in this configuration: get_value(d) returns the field of derivative d bit-identically (position, velocity, acceleration for d = Position, Velocity, Acceleration) and the three named accessors return their fields -- the selection does not go through anything a build without unit checking answers differently"
+#[kani::proof]
+fn c19_state_get_value_selects_the_component() {
+    let s: State = kani::any();
+    let d: PositionDerivative = kani::any();
+    let g = s.get_value(d);
+    match d {
+        PositionDerivative::Position => assert!(feq(g.value, s.position)),
+        PositionDerivative::Velocity => assert!(feq(g.value, s.velocity)),
+        PositionDerivative::Acceleration => assert!(feq(g.value, s.acceleration)),
+    }
+    assert!(feq(s.get_position().value, s.position) && feq(s.get_velocity().value, s.velocity) && feq(s.get_acceleration().value, s.acceleration));
+    kani::cover!(d == PositionDerivative::Velocity, "reach: velocity selected");
+    reach!();
+}
